@@ -13,6 +13,24 @@ CHECKS = {
              'is a bounded stand-in and is not counted as discharged. The module-level sentence rests on C03.',
         technique='exhaustive evaluation of table clauses + z3 per-element VCs from the real comprehension bodies'),
 }
+CHECKS['C06'] = dict(
+    category='proof', design_ref='DESIGN.md §C06',
+    text='For Luhn (every even alphabet size 2..40), Verhoeff, Damm and the five ISO 7064 systems the step function is extracted from the real '
+         'checksum() source (loop body, parity-sum or Horner normal form); z3 discharges the finite lemmas over symbolic state, position and '
+         'symbols (range/no failing lookup, left and right injectivity, adjacent transposition, completion, exact Luhn failure set, Mod 97-10 '
+         'simulation and two-digit completion); Lean 4 (lean/Fold.lean, compiled on every run) lifts them to strings of every length.',
+    note='Trusted: the glue "for-loop over a sequence == List.foldl of its body", mathematical integers, z3, Lean kernel. The extracted step is '
+         'cross-checked against symbolic execution of the whole real checksum() for lengths 0..4.',
+    technique='step-function extraction from the real AST + z3 finite lemmas + Lean 4 induction schemas')
+CHECKS['C10'] = dict(
+    category='proof', design_ref='DESIGN.md §C10',
+    text='The real AST of NumDB._find is evaluated over z3 strings and two uninterpreted monoids; an inductive loop invariant over an arbitrary '
+         'entry index and the function contract (measure len(number)) give: result == declarative spec, parts concatenate to the number, the '
+         'recursion terminates - for any prefix tree and any number. info()/split() are checked as thin wrappers.',
+    note='read()/_parse() (generator, aliasing heap) are outside the verified subset: a bounded differential against an independent reader on the '
+         '17 shipped files and generated files stands in, labelled bounded and not counted as discharged. Refutations are lifted to a concrete '
+         '(registry, number) pair by bounded search and replayed on the real _find.',
+    technique='loop-invariant VCs generated from the real AST, z3 (sequences + uninterpreted monoids)')
 PENDING = {
 }
 ALL = ['C%02d' % i for i in range(1, 19)]
